@@ -93,6 +93,10 @@ def run(ctx):
     ctx.rule = "instances = data-use sites of the three operators, per-key closure facts by key kind, counter/push dominance facts, threshold comparison; non-trivial = provenance, dominance, specialisation"
     ctx.trusted = ["std adaptor models", "Option::is_none / unwrap_or semantics"]
     cfgs = ["default"] if ctx.tier == "quick" else ["default", "python", "wasm"]
+    # "the keys that var cannot find": the shared lookup itself must find what is there — its clauses are C11's K2
+    # (indexing), K5 (the path walk: a step that is present, even null, is Some) and K6 (the splitter)
+    from . import c11 as _c11
+    ctx.include("C11", _c11.run, "K1.lookup", keep=lambda c: c.startswith(("K2.", "K5.", "K6.")), what="the lookup shared with var")
     for cfg in cfgs:
         facts = ctx.facts(cfg)
         roles = Roles(facts)
